@@ -222,6 +222,8 @@ INT_OPS = {
 BOOL_OPS = {
     "<": ("II", lambda a, b: ["cmp", "<", a, b]),
     "==": ("II", lambda a, b: ["cmp", "==", a, b]),
+    "beq": ("BB", lambda a, b: ["cmp", "==", a, b]),      # truth values compared: Python would CHAIN `a < b == c < d`
+    "bne": ("BB", lambda a, b: ["cmp", "!=", a, b]),
     "not": ("B", lambda a: ["not", a]),
     "and": ("BB", lambda a, b: ["and", [a, b]]),
     "or": ("BB", lambda a, b: ["or", [a, b]]),
@@ -251,8 +253,46 @@ def depth2(rng):
     return out
 
 
+def depth2_mixed(rng):
+    """truth values where numbers are expected and numbers where truth values are expected (Python: a bool is
+    the integer 0 / 1, a number is true iff non-zero): what the printer must parenthesise does not depend on the
+    types, and `not` binds more loosely in Python than comparisons and arithmetic do"""
+    out = []
+    ints = {k: INT_OPS[k] for k in ("+", "*", "neg", "**", "min", "max", "if", "f")}
+    bools = BOOL_OPS
+    # a truth-valued operator in a number slot of an arithmetic / comparison operator
+    for oty, table in (("I", ints), ("B", {k: BOOL_OPS[k] for k in ("<", "==")})):
+        for oname, (osig, omk) in table.items():
+            for slot, sty in enumerate(osig):
+                if sty != "I":
+                    continue
+                for iname, (isig, imk) in bools.items():
+                    inner = imk(*[leaf(rng, t) for t in isig])
+                    args = [leaf(rng, t) for t in osig]
+                    args[slot] = inner
+                    out.append((oty, omk(*args), f"mixed:{oname}[{slot}]<-{iname}"))
+    # a number-valued operator in a truth-value slot
+    for oty, table in (("B", {k: BOOL_OPS[k] for k in ("not", "and", "or")}), ("I", {"if": INT_OPS["if"]})):
+        for oname, (osig, omk) in table.items():
+            for slot, sty in enumerate(osig):
+                if sty != "B":
+                    continue
+                for iname in ("+", "*", "neg", "min", "if"):
+                    isig, imk = INT_OPS[iname]
+                    inner = imk(*[leaf(rng, t) for t in isig])
+                    args = [leaf(rng, t) for t in osig]
+                    args[slot] = inner
+                    out.append((oty, omk(*args), f"mixed:{oname}[{slot}]<-{iname}"))
+    return out
+
+
 def expr_cases(rng, tier):
-    exprs = depth2(rng)
+    for mixed in (False, True):
+        yield from expr_cases_of(rng, tier, mixed)
+
+
+def expr_cases_of(rng, tier, mixed):
+    exprs = depth2_mixed(rng) if mixed else depth2(rng)
     per = 24
     for start in range(0, len(exprs), per):
         chunk = exprs[start:start + per]
@@ -264,7 +304,10 @@ def expr_cases(rng, tier):
                 prog.append(["stmt", ["assign", "fl", None, e, []]])
                 prog.append(["stmt", ["yield", ["if", ["v", "fl"], ["c", 1], ["c", 0]], ["c", k], "final", "z"]])
         for rep in range(2 if tier == "quick" else 6):
-            yield {"op": "C01.run", "tag": "printer-depth2", "initial": "init",
+            # the mixed-type family is decided on the real back ends and the Python reference only: the Lean
+            # model's values keep truth values and numbers apart (mixing them is its poison value)
+            yield {"op": None if mixed else "C01.run", "tag": "printer-mixed-types" if mixed else "printer-depth2",
+                   **({"mixed": True} if mixed else {}), "initial": "init",
                    "phases": [{"name": "init", "next": "p0", "prog": [["stmt", ["assign", "<p>k", None, ["c", rng.randint(-2, 4)], []]]]},
                               {"name": "p0", "next": "p0", "prog": prog}],
                    "y0": rng.randint(-3, 5), "v0": [rng.randint(-4, 8) for _ in range(sc.ARR_LEN)],
@@ -410,6 +453,8 @@ def run_both(case):
     for kind in ("interp", "gen"):
         try:
             res[kind] = {"steps": run_backend(case, kind, code)}
+            if case.get("mixed"):
+                res[kind] = boolint(res[kind])
         except BackendError as ex:
             res[kind] = {"error": str(ex)}
     return res
@@ -526,10 +571,26 @@ def r_call(f, args, kw):
     raise RefUndefined("function " + f)
 
 
+_LENIENT = [False]      # mixed-type printer family: a bool is the integer 0 / 1, as in Python
+
+
 def need_int(v):
+    if _LENIENT[0] and isinstance(v, bool):
+        return int(v)
     if isinstance(v, bool) or not isinstance(v, int):
         raise RefUndefined("not an integer: " + repr(v)[:30])
     return v
+
+
+def boolint(j):
+    """True / False -> 1 / 0 throughout (mixed-type family: `min(True, 2)` is `True` in one executor, `1` in another)"""
+    if isinstance(j, bool):
+        return int(j)
+    if isinstance(j, list):
+        return [boolint(x) for x in j]
+    if isinstance(j, dict):
+        return {k: boolint(v) for k, v in j.items()}
+    return j
 
 
 def r_eval(j, st, cnt):
@@ -575,7 +636,10 @@ def r_eval(j, st, cnt):
         a = need_int(r_eval(j[1], st, cnt))
         return a if j[2] == "real" else 0
     if k == "cmp":
-        a, b = need_int(r_eval(j[2], st, cnt)), need_int(r_eval(j[3], st, cnt))
+        a, b = r_eval(j[2], st, cnt), r_eval(j[3], st, cnt)
+        if isinstance(a, bool) and isinstance(b, bool) and j[1] in ("==", "!="):
+            return (a == b) if j[1] == "==" else (a != b)
+        a, b = need_int(a), need_int(b)
         return {"<": a < b, "<=": a <= b, ">": a > b, ">=": a >= b, "==": a == b, "!=": a != b}[j[1]]
     if k == "not":
         return not truthy(r_eval(j[1], st, cnt))
@@ -684,6 +748,15 @@ def persistent(n):
 
 
 def reference(case):
+    _LENIENT[0] = bool(case.get("mixed"))
+    try:
+        r = reference_strict(case)
+    finally:
+        _LENIENT[0] = False
+    return boolint(r) if case.get("mixed") else r
+
+
+def reference_strict(case):
     phases = {ph["name"]: ph for ph in case["phases"]}
     st = {"<t>": case["t0"], "<dt>": case["dt"], "<state>y": case["y0"], "<state>v": list(case["v0"])}
     nxt = case["initial"]
